@@ -342,6 +342,10 @@ func (ls *LanceroSource) PrepareChannels() error {
 	cnum := ls.firstRowChanNum
 	thisColFirstCnum := cnum - ls.chanSepColumns
 	ls.groupKeysSorted = make([]GroupIndex, 0)
+	// The LanceroSource object outlives a run: recompute the subframe facts for the present geometry
+	// instead of keeping those of an earlier run with a different number of rows.
+	ls.subframeDivisions = 0
+	ls.mixedRowCounts = false
 	for _, device := range ls.active {
 		// For Lancero sources, subframeDivisions = the number of rows.
 		// For sources with multiple LanceroDevice objects, its meaning is ambiguous, but we'll
